@@ -3,6 +3,7 @@ package gen
 import (
 	"fmt"
 	"math"
+	"strings"
 	"time"
 
 	"pgregory.net/rapid"
@@ -85,6 +86,12 @@ func WireRecord(t *rapid.T, o *WireOpts, depth int) ref.Schema {
 	n := UniformRange(t, "nfields", lo, 5)
 	for i := 0; i < n; i++ {
 		s.Fields = append(s.Fields, ref.Field{Name: fmt.Sprintf("f%d", i), Type: WireSchema(t, o, depth+1)})
+	}
+	if n >= 2 && rapid.IntRange(0, 5).Draw(t, "caseTwin") == 0 {
+		// two fields whose names differ only in case (Avro names are case sensitive)
+		i := rapid.IntRange(0, n-1).Draw(t, "twinOf")
+		j := (i + 1 + rapid.IntRange(0, n-2).Draw(t, "twin")) % n
+		s.Fields[j].Name = strings.ToUpper(s.Fields[i].Name)
 	}
 	return s
 }
